@@ -53,21 +53,10 @@ where
   here (F : Facts) (env : Env) (e : CExpr) : Option CExpr :=
     if compare (evalY F env none e) (Spec.evalGo env.iota e) == .same then none else some e
 
-def goInt (iota : Nat) (e : CExpr) : Option Int :=
-  match Spec.evalGo iota e with
-  | .ok ⟨.int v, _⟩ => some v
-  | .ok ⟨.flt q, _⟩ => if q.isInt then some q.num else none
-  | _ => none
-
 def goTy (iota : Nat) (e : CExpr) : Option Ty :=
   match Spec.evalGo iota e with
   | .ok v => some v.ty
   | _ => none
-
-def gapOf (t : Ty) (v : Option Int) : Bool :=
-  match t, v with
-  | .t (.i k), some x => inSignedGap k x
-  | _, _ => false
 
 /-- label of a node-level divergence -/
 def labelNode (F : Facts) (env : Env) (e : CExpr) : String :=
@@ -76,11 +65,10 @@ def labelNode (F : Facts) (env : Env) (e : CExpr) : String :=
   | .unm w => "unmodelled:" ++ w
   | _ =>
   match e with
-  | .conv t x =>
+  | .conv _ x =>
     (match c with
      | .yOkGReject =>
-       if gapOf (.t t) (goInt env.iota x) && (goTy env.iota x).any Ty.untyped then "signed-gap"
-       else if (goTy env.iota x).any Ty.untyped then "conv-untyped-unchecked"
+       if (goTy env.iota x).any Ty.untyped then "conv-untyped-unchecked"
        else "conv-typed-unchecked"
      | .yCrash => "fold-panic"
      | .yRejectGOk => "rejects-valid"
@@ -97,9 +85,8 @@ def labelNode (F : Facts) (env : Env) (e : CExpr) : String :=
          | _, some (.t b) => some (.t b)
          | _, _ => none
        (match typedSide with
-        | some t =>
+        | some _ =>
           if isShiftAct a then "typed-arith-wraps"
-          else if (tx.any Ty.untyped && gapOf t (goInt env.iota x)) || (ty.any Ty.untyped && gapOf t (goInt env.iota y)) then "signed-gap"
           else if a == .quo && tx != ty then "quo-unchecked"
           else "typed-arith-wraps"
         | none => "untyped-limit")
@@ -148,14 +135,7 @@ def classifyDecl (F : Facts) (ctx : Ctx) (iota : Nat) (declT : Option BT) (e : C
       | none =>
         -- every sub-expression agrees in a single walk: the declaration context makes the difference
         (match declT with
-         | some t =>
-           -- the walk with the declared type pushed down left an untyped constant: the assignment check
-           -- (representable) is what lets a value of the signed gap through
-           let viaRepr : Bool := match evalY F env (some (.t t)) e with
-             | .ok n => n.ty.untyped
-             | _ => false
-           if gapOf (.t t) (goInt iota e) && viaRepr then "signed-gap"
-           else "typed-decl-unchecked"
+         | some _ => "typed-decl-unchecked"
          | none =>
            if ctx == .var then (if hasRune e then "global-var-rune" else "var-decl-other")
            else "const-second-walk")
